@@ -460,12 +460,14 @@ def c17(res):
 
 @check("C14")
 def c14(res):
-    return generic(res, "C14", "Properties/C14.v", [LOOP, SAN(40, 40)], None,
+    return generic(res, "C14", "Properties/C14.v", [LOOP, SAN(40, 40), ("corr-reccheck", ["reccheck"])], None,
                    "the closing-tag stack indexing, isDataAttribute, removeUnicode and recursiveCheck",
-                   "theorems: no panic state reachable, all model functions total; tie: every correspondence case runs the implementation under recover(); oracle: size-parameterised "
+                   "theorems: no panic state reachable, all model functions total, recursiveCheck quadratic in sub-handler calls and correct; tie: every correspondence case runs the implementation under recover(); "
+                   "recursiveCheck (css.VerifRecursiveCheck) vs the extracted model on result and number of sub-handler calls (every value of <=4 components over 3 strings under 5 families of sub-handlers, random "
+                   "values and sub-handler sets, adversarial all-prefixes-accepted values up to 64 components) with a brute-force oracle for the result and the proved bound on the calls; oracle: size-parameterised "
                    "adversarial families (n = 8..48 repetitions of 14 tokens in 28 shorthand CSS properties, 20000-deep nesting, 20000 attributes, long escape chains) under a wall-clock "
                    "budget of 3 s per short input, and panic hunting over mutated documents on all entry points",
-                   thorough_runs=[LOOP_T, SAN(300, 100)],
+                   thorough_runs=[LOOP_T, SAN(300, 100), ("corr-reccheck", ["reccheck", "-n", "20000"])],
                    extra_oracles=[("oracle-c14", ["c14"])])
 
 
